@@ -16,17 +16,17 @@ import (
 // labelMeaning maps each label spelling of HclStruct!Spellings to the string it denotes.
 var labelMeaning = map[string]string{
 	"bare:x": "x", "q:x": "x", `q:\u0078`: "x",
-	"q:a b":    "a b",
-	`q:a\"b`:   `a"b`,
+	"q:a b":      "a b",
+	`q:a\"b`:     `a"b`,
 	`q:a\u0022b`: `a"b`,
-	`q:a\nb`:   "a\nb",
+	`q:a\nb`:     "a\nb",
 	`q:a\u000ab`: "a\nb",
-	`q:a\\b`:   `a\b`,
-	"q:a$b":    "a$b",
-	"q:$":      "$",
-	"q:$${a}":  "${a}",
-	"q:%%{a}":  "%{a}",
-	`q:\u00e9`: "é", `q:\U000000e9`: "é", "q:UTF8E9": "é",
+	`q:a\\b`:     `a\b`,
+	"q:a$b":      "a$b",
+	"q:$":        "$",
+	"q:$${a}":    "${a}",
+	"q:%%{a}":    "%{a}",
+	`q:\u00e9`:   "é", `q:\U000000e9`: "é", "q:UTF8E9": "é",
 	`q:a\tb`: "a\tb", `q:a\rb`: "a\rb",
 	"bare:for": "for", "bare:null": "null", "q:for": "for",
 }
